@@ -397,7 +397,7 @@ var tErrno = map[string][]string{
 	"close":     {"EIO"},
 }
 
-var nFaultRuns, nRolledBack, nCompleted int64
+var nFaultRuns, nRolledBack, nCompleted, nWriteErr int64
 
 // cutReader delivers the first cut bytes of data and then fails.
 type cutReader struct {
@@ -497,6 +497,7 @@ func faultRuns(r *vlib.Run, base string, W int) {
 		newData := payload.Make("new", 7, rl.new)
 		os.WriteFile(file, old, 0o666)
 		args := append([]string{child, file, "7", fmt.Sprint(rl.new)}, extra...)
+		isWrite := len(extra) > 0 && extra[0] == "op=write"
 		var stdout string
 		var trace []string
 		if inject == "" && wantLand == nil {
@@ -528,6 +529,9 @@ func faultRuns(r *vlib.Run, base string, W int) {
 			report("transform-lost-the-file", fmt.Sprintf("transform-lost-the-file old=%d new=%d %s", rl.old, rl.new, fault),
 				fmt.Sprintf("after a Transform (%s) with %s the file cannot be read any more: %v (old %d bytes, new %d bytes)", strings.TrimSpace(stdout), fault, rerr, rl.old, rl.new),
 				fcase{"transform-lost-the-file", rl.old, rl.new, fault, trace, strings.TrimSpace(stdout)})
+		case strings.HasPrefix(stdout, "TERR") && isWrite:
+			// a Write that reports its failure: what it leaves in the file is not the property's business
+			atomic.AddInt64(&nWriteErr, 1)
 		case strings.HasPrefix(stdout, "TERR"):
 			atomic.AddInt64(&nRolledBack, 1)
 			if !bytes.Equal(got, old) {
@@ -540,9 +544,13 @@ func faultRuns(r *vlib.Run, base string, W int) {
 			atomic.AddInt64(&nCompleted, 1)
 			if !bytes.Equal(got, newData) {
 				_, prob := ident(got)
-				report("successful-transform-wrong-contents", fmt.Sprintf("successful-transform-wrong-contents old=%d new=%d %s", rl.old, rl.new, fault),
-					fmt.Sprintf("Transform returned nil after %s, but the file does not hold the new contents: %d bytes, %s", fault, len(got), prob),
-					fcase{"successful-transform-wrong-contents", rl.old, rl.new, fault, trace, strings.TrimSpace(stdout)})
+				kind, op := "successful-transform-wrong-contents", "Transform"
+				if isWrite {
+					kind, op = "successful-write-wrong-contents", "Write"
+				}
+				report(kind, fmt.Sprintf("%s old=%d new=%d %s", kind, rl.old, rl.new, fault),
+					fmt.Sprintf("%s returned nil after %s, but the file does not hold the new contents: %d bytes, %s", op, fault, len(got), prob),
+					fcase{kind, rl.old, rl.new, fault, trace, strings.TrimSpace(stdout)})
 			}
 		default:
 			r.Inconclusive("child produced no verdict: " + stdout)
@@ -581,6 +589,37 @@ func faultRuns(r *vlib.Run, base string, W int) {
 		}
 		// the function reports an error
 		jobs = append(jobs, func() { one(rl, "", []string{"fnerr"}, "the function returned an error", nil) })
+		// the same for one Write: every file operation it performs fails once; whenever Write then returns
+		// nil the file must hold exactly the new bytes (no leftover of the old ones, nothing missing)
+		dirW := filepath.Join(base, fmt.Sprintf("dryw%d", atomic.AddInt64(&ctr, 1)))
+		os.MkdirAll(dirW, 0o777)
+		fileW := filepath.Join(dirW, "data")
+		os.WriteFile(fileW, payload.Make("old", int64(rl.old), rl.old), 0o666)
+		dryW, errW := vlib.RunStrace(filepath.Join(dirW, "strace.log"), "", nil, child, fileW, "7", fmt.Sprint(rl.new), "op=write")
+		os.RemoveAll(dirW)
+		if errW != nil || dryW.Begin < 0 || dryW.End < 0 || !strings.HasPrefix(dryW.Stdout, "TOK") {
+			r.Inconclusive(fmt.Sprintf("dry run of Write old=%d new=%d failed: %v", rl.old, rl.new, errW))
+			continue
+		}
+		regionW := dryW.Region()
+		for j, s := range regionW {
+			j, s := j, s
+			errnos := tErrno[s.Name]
+			if s.Name == "write" {
+				errnos = []string{"ENOSPC", "EIO"}
+			}
+			for _, en := range errnos {
+				en := en
+				jobs = append(jobs, func() {
+					one(rl, fmt.Sprintf("%s:error=%s:when=%d", s.Name, en, s.Ordinal), []string{"op=write"},
+						fmt.Sprintf("Write: %s injected into file operation %d/%d (%s)", en, j+1, len(regionW), s.Name),
+						func(res *vlib.StraceResult) bool {
+							reg := res.Region()
+							return len(reg) > j && reg[j].Injected && reg[j].Name == s.Name
+						})
+				})
+			}
+		}
 		// real short writes in the growth case
 		if rl.new > rl.old {
 			for _, lim := range []int{rl.old, rl.old + 1, (rl.old + rl.new) / 2, rl.new - 1} {
@@ -602,7 +641,7 @@ func main() {
 		return
 	}
 	vlib.Main("C07", "exploration", 12*time.Minute, func(r *vlib.Run) {
-		r.Rule("schedules: rounds of P processes (2-6) x G goroutines (2-6) released together on F files (every second process with its standard input closed, so that files land on descriptor 0); each client does K operations (Read via lockedfile.Read or Open+delayed ReadAll, Write of a unique payload, Transform to a unique payload, Transform whose function fails) with unique self-describing payloads of 24B..256KiB and seeded delays at the lockedfile hooks; each file's history (plus a final quiescent Read) is checked with porcupine against a register model; every fifth round has no blind Writes and is also checked by the chain checker; every fifth round writes empty contents too and starts half of its files empty (EMPTY is then an ordinary value of the register); every fifth round starts with no files at all (12-31 names, first operations race to create them; a missing and an empty file are the one value EMPTY); every fourth round the workers run under strace with EINTR injected into every other flock call of every thread. faults: for 9 (quick) / 15 old/new length relations a dry run under strace lists the file operations of one Transform, then one run per (operation, errno), plus failing function and RLIMIT_FSIZE short writes; 57 Writes whose content reader fails after 0 / 1 / half / all but one of its bytes must report that error. Non-trivial/distinct = per-file histories containing overlapping operations of different kinds + confirmed fault injections.")
+		r.Rule("schedules: rounds of P processes (2-6) x G goroutines (2-6) released together on F files (every second process with its standard input closed, so that files land on descriptor 0); each client does K operations (Read via lockedfile.Read or Open+delayed ReadAll, Write of a unique payload, Transform to a unique payload, Transform whose function fails) with unique self-describing payloads of 24B..256KiB and seeded delays at the lockedfile hooks; each file's history (plus a final quiescent Read) is checked with porcupine against a register model; every fifth round has no blind Writes and is also checked by the chain checker; every fifth round writes empty contents too and starts half of its files empty (EMPTY is then an ordinary value of the register); every fifth round starts with no files at all (12-31 names, first operations race to create them; a missing and an empty file are the one value EMPTY); every fourth round the workers run under strace with EINTR injected into every other flock call of every thread. faults: for 9 (quick) / 15 old/new length relations a dry run under strace lists the file operations of one Transform, then one run per (operation, errno), plus failing function and RLIMIT_FSIZE short writes; the same enumeration for one Write (whenever it returns nil the file holds exactly the new bytes); 57 Writes whose content reader fails after 0 / 1 / half / all but one of its bytes must report that error. Non-trivial/distinct = per-file histories containing overlapping operations of different kinds + confirmed fault injections.")
 		r.Assume("CLOCK_MONOTONIC is one clock for all processes of the machine; porcupine v1.3.0 decides linearizability of the recorded history (timeout => inconclusive)")
 		base := vlib.Scratch()
 		W := runtime.NumCPU()
@@ -611,6 +650,7 @@ func main() {
 		r.Set("fault_runs", atomic.LoadInt64(&nFaultRuns))
 		r.Set("fault_runs_transform_returned_error", atomic.LoadInt64(&nRolledBack))
 		r.Set("fault_runs_transform_returned_nil", atomic.LoadInt64(&nCompleted))
+		r.Set("fault_runs_write_returned_error", atomic.LoadInt64(&nWriteErr))
 
 		rounds := r.Pick(24, 160)
 		_, straceErr := exec.LookPath("strace")
